@@ -47,6 +47,10 @@ func buildPlan(id string, pinned map[string]string, tier string) *Plan {
 			p.Units = append(p.Units, Unit{Pkg: "./" + c.Rel, Tags: "", Groups: []string{g}})
 		}
 		p.Units = append(p.Units, Unit{Pkg: "./ecc/stark-curve", Tags: "", Groups: []string{"g1"}})
+		ed := edwardsPkgs("/repo")
+		for _, pk := range sortedStrKeys(ed) {
+			p.Units = append(p.Units, Unit{Pkg: pk, Tags: "", Groups: []string{"edwards"}})
+		}
 		p.Trusted = []string{
 			"ring layer: methods of the coordinate field (fp.Element, fptower.E2, fptower.E4) are interpreted by the ring operation their own contracts state (C01 / C06)",
 			"Z-lifting of polynomial identities; inputs are parametrised by (affine point, projective scaling), which eliminates all hypotheses by substitution",
@@ -138,6 +142,10 @@ func buildPlan(id string, pinned map[string]string, tier string) *Plan {
 		for _, t := range towers {
 			p.Units = append(p.Units, Unit{Pkg: "./" + t.Rel, Tags: "portable", Groups: []string{"tower"}, MultiPartOnly: true})
 			p.Units = append(p.Units, Unit{Pkg: "./" + t.Rel, Tags: "", Groups: []string{"tower"}, MultiPartOnly: true})
+		}
+		ed := edwardsPkgs("/repo")
+		for _, pk := range sortedStrKeys(ed) {
+			p.Units = append(p.Units, Unit{Pkg: pk, Tags: "", Groups: []string{"edwards"}, MultiPartOnly: true})
 		}
 		p.Note = "Every function with two or more pointer operands of the same type is verified once per set partition of those operands (exact points-to per partition); postconditions are over old() values and the frame clause forbids writes to non-destination operands."
 		return p
